@@ -227,7 +227,13 @@ func runC16(c *sim.Ctx) *sim.Violation {
 			damaged = true
 		}
 		_, body, _, _ := ref.SplitFrame(frame)
-		got := ReadOne(link.NewReader(c, frame, link.Mode{}))
+		// how the frame arrives is drawn too: whole or in pieces, the stream's end
+		// reported after the last bytes or TOGETHER with them (n > 0, io.EOF)
+		mode := link.Mode{Chunk: c.T.Bool(1, 3), DataEOF: c.T.Bool(1, 2)}
+		if mode.DataEOF {
+			c.Count("fault.last-bytes-delivered-together-with-io.EOF")
+		}
+		got := ReadOne(link.NewReader(c, frame, mode))
 		if damaged {
 			if got.Kind != "packet" {
 				c.Count("damaged-body.rejected")
